@@ -23,7 +23,12 @@ func profile() sim.Profile {
 	pf.PTopology = 0
 	pf.PConstraints = 1
 	pf.MinCycles = 1
-	pf.MaxCycles = 2
+	pf.MaxCycles = 3
+	// a long-running scheduler process, and between cycles priority classes that appear or change, workloads that
+	// are given another class, nodes that are cordoned / uncordoned: the order must follow the API state of the cycle
+	pf.PPersistent = 6
+	pf.PMutations = 5
+	pf.MutationKinds = []string{"pc-set", "pg-priorityclass", "node-unschedulable"}
 	pf.Actions = [][]string{{"allocate"}}
 	pf.NoBindFailures = true
 	return pf
